@@ -84,6 +84,10 @@ pub struct CliOpts {
     pub license: bool,
     #[serde(default)]
     pub red2: Option<[String; 3]>,
+    /// one output option (index into --json --xml --txt --oc --of) gets this path instead of a plain file name:
+    /// empty, a directory, the root, a path that another output or the input already uses, ...
+    #[serde(default)]
+    pub odd_path: Option<(u8, String)>,
 }
 
 const NUM_TOKENS: [&str; 26] = [
@@ -403,9 +407,14 @@ fn cli_opts_s() -> BoxedStrategy<CliOpts> {
         prop::bool::weighted(0.05),
         0u8..4,
         any::<bool>(),
-        (prop::bool::weighted(0.08), prop::bool::weighted(0.03), proptest::option::weighted(0.1, (weird(), weird(), weird()))),
+        (
+            prop::bool::weighted(0.08),
+            prop::bool::weighted(0.03),
+            proptest::option::weighted(0.1, (weird(), weird(), weird())),
+            proptest::option::weighted(0.2, (0u8..5, select(vec!["", "/", ".", "..", "./", "sub/", "out.json", "out.xml", "comp.csv", "fact.csv", "a/../b.json", "ñandú.json", " ", "no/existe/x.txt", "/dev/null", "/dev/full", "/proc/nonexistent/x"]).prop_map(|s| s.to_string()))),
+        ),
     )
-        .prop_map(|(kexp, arearef, red1, loc_opt, outputs, bad_output_dir, missing_components_file, verbose, no_strip, (no_components, license, red2))| CliOpts {
+        .prop_map(|(kexp, arearef, red1, loc_opt, outputs, bad_output_dir, missing_components_file, verbose, no_strip, (no_components, license, red2, odd_path))| CliOpts {
             kexp,
             arearef,
             red1: red1.map(|(a, b, c)| [a, b, c]),
@@ -418,6 +427,7 @@ fn cli_opts_s() -> BoxedStrategy<CliOpts> {
             no_components,
             license,
             red2: red2.map(|(a, b, c)| [a, b, c]),
+            odd_path,
         })
         .boxed()
 }
@@ -623,12 +633,19 @@ pub fn cli_argv(c: &Case, o: &CliOpts, has_factors_file: bool) -> Vec<String> {
     for _ in 0..o.verbose {
         a.push("-v".into());
     }
+    let outs = [("--json", "out.json"), ("--xml", "out.xml"), ("--txt", "out.txt"), ("--oc", "oc.csv"), ("--of", "of.csv")];
     if o.outputs {
         let dir = if o.bad_output_dir { "no/existe/" } else { "" };
-        for (flag, name) in [("--json", "out.json"), ("--xml", "out.xml"), ("--txt", "out.txt"), ("--oc", "oc.csv"), ("--of", "of.csv")] {
-            a.push(flag.into());
-            a.push(format!("{}{}", dir, name));
+        for (i, (flag, name)) in outs.iter().enumerate() {
+            a.push(flag.to_string());
+            match &o.odd_path {
+                Some((j, p)) if *j as usize == i => a.push(p.clone()),
+                _ => a.push(format!("{}{}", dir, name)),
+            }
         }
+    } else if let Some((j, p)) = &o.odd_path {
+        a.push(outs[*j as usize % 5].0.to_string());
+        a.push(p.clone());
     }
     a
 }
